@@ -22,6 +22,8 @@ META = {
     "bound": {"quick": "pool a: length<=1, b: length<=2 (n<=3), all injective maps; remove_identities L<=4 on 2 qubits / L<=3 on 3 qubits; qft n<=4",
               "thorough": "pool a: length<=2 for n<=2; remove_identities L<=5 on 2 qubits / L<=4 on 3 qubits"},
     "assumptions": ["svsim is the meaning of a circuit (cross-checked against qiskit)", "repeat(0) is outside 'n-fold for all n >= 1' and not judged"],
+    # a case is a BLOCK of circuits (all sequences below a two-letter prefix): the per-case CPU cap is sized for a block
+    "case_cap_s": 900,
     "explanation": "states = composition instances; transitions = composition operations executed on real QCircuit objects.",
 }
 
